@@ -39,7 +39,7 @@ struct Driver {
   virtual void run(size_t i, Result& r, bool verbose) = 0;
   virtual void workerInit() {}
   virtual size_t chunk() { return 1; }          // indices handed to a worker at once
-  virtual double deadlineSec(const std::string& tier) { return tier == "quick" ? 240 : 1500; }
+  virtual double deadlineSec(const std::string& tier) { return tier == "quick" ? 600 : 3600; }
   virtual double scenarioTimeoutSec() { return 60; }
   // E2 drivers (real threads, real kernel objects): a mismatch of the determinism double-run is settled by a third run
   virtual bool tieBreakNondeterminism() { return false; }
